@@ -51,7 +51,9 @@ Pool == <<
   "\"\\(a)\"", "\"\\(b.x)-\\(c)\"", "{let L = a, x: L}", "{let L = L2, let L2 = L, x: L}", "len(a)", "or([a, b])", "and([a, {x: 1}])",
   "{(a): 1}", "{\"\\(b)\": 2}", "{x: 1}.x", "{x: 1}.y", "close({x: 1}) & {y: 2}", "#Z", "{#Z: a, v: #Z & {q: 1}}",
   "{x: 1, x: 2}", "{x: >2 & <1}", "[1, 2] & [1]", "3 & 4.0", "\"a\" + 1", "{x: [x]}", "{x: [...x]}", "{x?: x}",
-  "[1, 2, 3][5:]", "'abc'[4:]", "a[1:]", "[1, 2][1:0]", "[1, 2, 3][:5]", "a[b:]", "[1, 2, 3][-1:]", "{\"#a\": 1}", "{#a: 2}", "{_h: 1, \"_h\": 2}">>
+  "[1, 2, 3][5:]", "'abc'[4:]", "a[1:]", "[1, 2][1:0]", "[1, 2, 3][:5]", "a[b:]", "[1, 2, 3][-1:]", "{\"#a\": 1}", "{#a: 2}", "{_h: 1, \"_h\": 2}",
+  \* many lets of one name in different scopes: the exporter has to invent distinct names
+  "{p1: {let X = 1 + c, q: X}, p2: {let X = 2 + c, q: X}, p3: {let X = 3 + c, q: X}, p4: {let X = 4 + c, q: X}, p5: {let X = 5 + c, q: X}, p6: {let X = 6 + c, q: X}, p7: {let X = 7 + c, q: X}, p8: {let X = 8 + c, q: X}}">>
 NP == Len(Pool)
 
 \* hand-picked programs (indices into Pool per label)
@@ -71,6 +73,7 @@ Fixed == {
   <<Ix("{#Z: a, v: #Z & {q: 1}}"), Ix("#Z"), Ix("a.x.y")>>,
   <<Ix("{\"#a\": 1}"), Ix("{#a: 2}"), Ix("a & b")>>,              \* a definition and a regular field spelled alike
   <<Ix("[1, 2, 3][5:]"), Ix("'abc'[4:]"), Ix("a[1:]")>>,
+  <<NP, Ix("a"), Ix("int")>>,                                     \* eight lets named X over the non-concrete c
   <<Ix("[1, 2]"), Ix("5"), Ix("a[b:]")>>,
   <<Ix("{let L = L2, let L2 = L, x: L}"), Ix("{x: y + 1, y: x - 1}"), Ix("{x: y, y: x}")>>
 }
